@@ -88,6 +88,24 @@ pub fn compare<F: Flt>(lay: &Layout, alg: &Arc<Alg>, lib: &Flat, rf: &Jet, kfac:
     compare_with::<F>(lay, alg, lib, rf, &|_| kfac, demand_exact, what)
 }
 
+thread_local! {
+    /// absolute tolerance floor override for the current case (wide-magnitude strata use a floor
+    /// scaled to the float type's subnormal spacing instead of the default)
+    pub static FLOOR_OVERRIDE: std::cell::Cell<Option<(f64, f64)>> = const { std::cell::Cell::new(None) };
+}
+pub fn floor_of<F: Flt>() -> f64 {
+    match FLOOR_OVERRIDE.with(|c| c.get()) {
+        Some((f64v, f32v)) => {
+            if F::IS32 {
+                f32v
+            } else {
+                f64v
+            }
+        }
+        None => F::FLOOR,
+    }
+}
+
 /// like `compare`, with a tolerance factor depending on the derivative order of the part
 pub fn compare_with<F: Flt>(lay: &Layout, alg: &Arc<Alg>, lib: &Flat, rf: &Jet, kf: &dyn Fn(u8) -> f64, demand_exact: bool, what: &str) -> Cmp {
     let mut c = Cmp::default();
@@ -115,10 +133,11 @@ pub fn compare_with<F: Flt>(lay: &Layout, alg: &Arc<Alg>, lib: &Flat, rf: &Jet, 
             return c;
         }
         let kfac = kf(s.order);
-        let tol = kfac * F::U * r.e + F::FLOOR;
+        let floor = floor_of::<F>();
+        let tol = kfac * F::U * r.e + floor;
         let diff = (l - r.v).abs();
         c.checked_parts += 1;
-        if r.e > 0.0 && F::U * r.e > 10.0 * F::FLOOR {
+        if r.e > 0.0 && F::U * r.e > 10.0 * floor {
             let ratio = diff / (F::U * r.e);
             if ratio > c.worst {
                 c.worst = ratio;
